@@ -110,7 +110,8 @@ def EvIs (s : KS) (e : EvId) (k : Kind) (cbs : List Cb) (out : Option Outcome) :
   (s.ev e).kind = k ∧ (s.ev e).cbs = some cbs ∧ (s.ev e).out = out
 
 /-- an event with nothing left to do: no callbacks, a successful outcome -/
-def NoopEv (s : KS) (e : EvId) : Prop := (s.ev e).cbs = some [] ∧ ∃ v, (s.ev e).out = some (.ok v)
+def NoopEv (s : KS) (e : EvId) : Prop :=
+  (s.ev e).cbs = some [] ∧ (∃ v, (s.ev e).out = some (.ok v)) ∧ ((s.ev e).kind = .timeout ∨ (s.ev e).kind = .proc)
 
 /-- the exception `Process.interrupt("restart timer")` throws into the victim -/
 def intrExc : Exc := ⟨"Interrupt", [.str "restart timer"]⟩
@@ -136,6 +137,11 @@ def CtlEv (s : KS) (cp : EvId) : CPhase → Prop
       s.proc? cp = some { st := .ctl q.time (some op) rest, target := some q.ev } ∧ EvIs s cp .proc [] none
   | .done => True
 
+/-- the LTS status of the previous process while the `Interruption` is on its way -/
+def oldStat : Option Old → List (PStat ℚ)
+  | none => []
+  | some o => [.sleeping o.qt.time]
+
 /-- an attribute cell as `Call.load` returns it -/
 def lookup (l : List (Nat × Val)) (k : Nat) : Val := ((l.find? (·.1 == k)).map (·.2)).getD .none
 
@@ -154,6 +160,8 @@ structure KInv (s : KS) (a : A) : Prop where
   c3 : lookup s.shared 3 = TimeCell.enc a.start
   c4 : lookup s.shared 4 = .ev a.cur
   c5 : lookup s.shared 5 = .int a.fired
+  /-- (ghost cell) the number of processes the timer has started -/
+  c6 : lookup s.shared 6 = .int ((a.dead.length + (oldStat a.old).length + 1 : Nat) : Int)
 
 /-! ## the abstract side -/
 
@@ -194,10 +202,6 @@ def TPhase.stat : TPhase → PStat ℚ
   | .init _ => .notStarted
   | .sleep _ q => .sleeping q.time
   | .dead => .finished
-
-def oldStat : Option Old → List (PStat ℚ)
-  | none => []
-  | some o => [.sleeping o.qt.time]
 
 /-- number of timer processes before `self.proc` -/
 def A.nprev (a : A) : Nat := a.dead.length + (oldStat a.old).length
